@@ -6,7 +6,7 @@ PROPS["C14"] = dict(
     modules=["Kust.Props.C14", "Kust.Props.C14b", "Kust.Props.C14c", "Kust.Props.C14d", "Kust.Lemmas.Path", "Kust.Props.C14e"],
     theorems=[
         "Kust.C14.setfield_get", "Kust.C14.setfield_frame", "Kust.C14.setfield_idem",
-        "Kust.C14.clear_absent_noop", "Kust.C14.clear_frame", "Kust.Fns.pathGet_nocreate_doc",
+        "Kust.C14.clear_absent_noop", "Kust.C14.clear_frame", "Kust.C14.clear_get", "Kust.C14.clear_length", "Kust.C14.clear_clear", "Kust.Fns.pathGet_nocreate_doc",
         "Kust.C14.create_then_lookup", "Kust.C14.match_nocreate_doc", "Kust.C14.match_denotes", "Kust.C14.denote_resolves",
         "Kust.C14.match_positions_resolve", "Kust.C14.match_positions_resolve_create", "Kust.C14.split_plain", "Kust.C14.merge_plain", "Kust.C14.filter_denotes", "Kust.C14.splitScan_joinEsc", "Kust.C14.scan_joinEsc", "Kust.C14.split_is_scan", "Kust.C14.filter_create_get", "Kust.C14.filter_create_mid", "Kust.C14.plainSeg_examples", "Kust.C14.split_joinEsc", "Kust.C14.smarter_plain",
     ],
